@@ -200,8 +200,10 @@ type fstat struct {
 	mode   os.FileMode
 }
 
+// statOf looks at what the config path names (a symbolic link is followed: whether a save replaces
+// the link or the file behind it is left to the store).
 func statOf(path string) fstat {
-	fi, err := os.Lstat(path)
+	fi, err := os.Stat(path)
 	if err != nil {
 		return fstat{}
 	}
